@@ -377,7 +377,7 @@ impl Property for C04 {
                 3 => ops.push(Op::SetAdr(r.chance(1, 2))),
                 _ => {
                     let txn = gen_txn(&mut r, &cfg, false);
-                    ops.push(Op::Send { port: r.range(1, 223) as u8, len: send_len(&mut r), confirmed: r.chance(1, 3), txn });
+                    ops.push(Op::Send { port: r.range(1, 223) as u8, len: send_len_or_max(&mut r), confirmed: r.chance(1, 3), txn });
                 }
             }
         }
